@@ -30,7 +30,22 @@ type Socket struct {
 	closed bool
 	out    []Out
 	WriteErr error // if set, WriteJSON fails with it
+	// failUpdate: the next envelope of type "update" is not written; WriteJSON returns this
+	// error for it (the way a real socket reports a value it cannot encode)
+	failUpdate error
+	// FailedUpdates counts envelopes refused that way
+	FailedUpdates int
 }
+
+// FailNextUpdate makes the write of the next "update" envelope fail with err.
+func (s *Socket) FailNextUpdate(err error) {
+	s.mu.Lock()
+	s.failUpdate = err
+	s.mu.Unlock()
+}
+
+// Failed reports how many update envelopes were refused by FailNextUpdate.
+func (s *Socket) Failed() int { s.mu.Lock(); defer s.mu.Unlock(); return s.FailedUpdates }
 
 func New() *Socket {
 	s := &Socket{}
@@ -90,6 +105,12 @@ func (s *Socket) WriteJSON(v interface{}) error {
 		Message json.RawMessage `json:"message"`
 	}
 	json.Unmarshal(b, &env)
+	if s.failUpdate != nil && env.Type == "update" {
+		err := s.failUpdate
+		s.failUpdate = nil
+		s.FailedUpdates++
+		return err
+	}
 	o := Out{Seq: len(s.out), Raw: b, ID: env.ID, Type: env.Type, At: time.Now()}
 	if len(env.Message) > 0 {
 		o.HasMsg = true
